@@ -82,10 +82,14 @@ def c15(tier):
     combos = [(0, 6, 1), (1, 6, 1), (1, 6, 2), (2, 8, 1)] if tier == "quick" else [(0, 6, 1), (0, 6, 2), (1, 6, 1), (1, 6, 2), (2, 6, 1), (2, 8, 2), (3, 8, 1)]
     for c in combos:
         jobs.append(Job("h_tree::tree_stage", c, {}, budget_s=3000, validate=40))
-    return dict(jobs=jobs, bounds={"committed_records": "0..%d" % max(c[0] for c in combos), "staged_records": "1..%d" % max(c[2] for c in combos),
-                                   "combos [committed, digest class, staged]": [list(c) for c in combos]},
-                assumptions=TREE_ASSUME + ["kernel level only: RevisionTree::{add, unstage, commit, has_staging}; the Melda-level stage/replay/guards are not yet covered"],
-                note="revisiontree.rs from MIR; harness h_tree::tree_stage")
+    s2 = [(4, 1, 0), (4, 1, 1)] if tier == "quick" else [(4, 1, 0), (4, 2, 0), (4, 1, 1), (6, 2, 1)]
+    for c in s2:
+        jobs.append(Job("h_c15::stage_roundtrip", c, dict(S2), budget_s=3000, validate=30))
+    return dict(jobs=jobs, bounds={"tree level [committed, digest class, staged]": [list(c) for c in combos],
+                                   "melda level [doc orders, staged ops, object conflict present]": [list(c) for c in s2],
+                                   "staged ops": "update to a symbolic document, delete_object (payload-free stage), reorder + value change"},
+                assumptions=TREE_ASSUME + S2_ASSUME,
+                note="revisiontree.rs + melda.rs (stage / unstage / replay_stage / commit / guards) + datastorage.rs from MIR")
 
 
 def c03(tier):
